@@ -210,7 +210,12 @@ def make_op(rng, tag, tfiles):
             a.update(gz=True, dir='dirA', name=name)
             b.update(gz=True, dir='dirB', name=name)
             return {'k': 'read2', 'a': a, 'b': b}
-        return {'k': 'read2', 'a': part(), 'b': part()}
+        a, b = part(), part()
+        if a.get('gz') and b.get('gz') and (a['dir'], a['name'], a['fmt']) == \
+                (b['dir'], b['name'], b['fmt']):
+            # two inputs of one operation are two files
+            b['dir'] = 'dirB' if a['dir'] == 'dirA' else 'dirA'
+        return {'k': 'read2', 'a': a, 'b': b}
     if kind == 'trans':
         r = rng.random()
         pools = gen.Pools(p_punct=0.3, edges=['HD', 'NK', 'SB', '--'])
